@@ -258,12 +258,26 @@ def _tagged(sk, bs, removes, disps, fs_locals, self_path):
         if d.fallback is not None and s.bb in dominated(view, d.fallback):
             sk.tag["unknown_site"] = s
     sk.tag["fallback_builds"] = _variant_agg_in(view, dominated(view, d.fallback), self_path) if d.fallback is not None else None
-    # missing tag: the ok_or_else closure
+    # missing tag: the ok_or_else closure, or a report on the None edge of a match on the removed entry
     sk.tag["missing_site"] = None
+    sk.tag["missing_form"] = None
     for path, (cv, cbs) in sk.closures.items():
         for s in cbs.sites:
             if s.ek == "MissingField":
                 sk.tag["missing_site"] = (cv, s)
+                sk.tag["missing_form"] = "closure"
+    if sk.tag["missing_site"] is None:
+        from sites import follow_local_use
+        k, sbb, info, cur = follow_local_use(view, rbb, view.blocks[rbb]["term"]["dest"]["l"])
+        if k == "switch":
+            nt = view.variant_target(info, "None")
+            st_ = view.variant_target(info, "Some")
+            if nt is not None and st_ is not None and nt != st_:
+                none_only = view.reachable(nt) - view.reachable(st_)
+                for s in bs.sites:
+                    if s.ek == "MissingField" and s.bb in none_only and view.dominates(nt, s.bb):
+                        sk.tag["missing_site"] = (view, s)
+                        sk.tag["missing_form"] = "match"
 
 
 def _named_fields(view, bs, entry, disps, fs_locals, self_path, region):
